@@ -302,9 +302,9 @@ Proof.
   { (* slider *)
     rewrite parse_slider_pre_spec.
     destruct (slider_fields_spec (f_sound f) r) as [pre|]; [|exists []; reflexivity].
-    destruct (convert_path_str_spec (mkPB (ho_curve st) (ho_vertices st)) (spre_point_str pre) (f_pos f))
+    destruct (convert_path_str_spec (mkPB [] (ho_vertices st)) (spre_point_str pre) (f_pos f))
       as [V HV].
-    rewrite HV. cbn [pb_curve].
+    rewrite HV. cbn [pb_curve app].
     destruct (path_spec (spre_point_str pre) (f_pos f)) as [cps ok]. cbn [fst snd].
     exists V. destruct ok.
     - unfold accept, set_bufs. cbn [pb_curve pb_vertices ho_last ho_curve ho_vertices ho_objects ho_mode].
